@@ -120,6 +120,30 @@ class Builder:
             raise ValueError(k)
         self.env[name] = o
 
+    @staticmethod
+    def uarr(values, form):
+        """the user's data array in another legal representation: an integer / unsigned / narrow dtype (values must be representable),
+        or a 2-D array that is not C-contiguous (Fortran order, a transposed view, a flipped or strided view) - same logical content"""
+        a = np.array(values)
+        if form in (None, "C"):
+            return a
+        if form == "F":
+            return np.asfortranarray(a.astype(float))
+        if form == "T":
+            return np.array(a.T.astype(float), order="C").T  # transposed view of the transposed data
+        if form == "flipud":
+            return np.flipud(np.array(a[::-1].astype(float)))
+        if form == "fliplr":
+            return np.fliplr(np.array(a[:, ::-1].astype(float))) if a.ndim == 2 else a[::-1].astype(float)[::-1]
+        if form == "strided":
+            big = np.zeros(tuple(2 * k for k in a.shape), dtype=float)
+            big[(slice(None, None, 2),) * a.ndim] = a
+            return big[(slice(None, None, 2),) * a.ndim]
+        out = a.astype(getattr(np, form))
+        if not np.array_equal(out.astype(float), a.astype(float)):
+            raise ValueError(f"values {values} not representable as {form}")
+        return out
+
     def farr(self, values, site=""):
         a = np.array(values, dtype=float)
         if self.buffers is None:
@@ -254,6 +278,8 @@ class Builder:
         if k == "diagf":
             return ox.diag(self.M(n[1]))
         if k == "arr":
+            if len(n) > 2 and n[2] not in (None, "C"):
+                return self.uarr(n[1], n[2])
             a = np.array(n[1])
             return self.farr(n[1], "arr") if self.buffers is not None and a.dtype == float else a
         if k == "list":
@@ -272,6 +298,9 @@ class Builder:
             return getattr(ox, "abs_" if n[1] == "abs" else n[1])(self.V(n[2]))
         if k == "mv":
             v = self.V(n[2])
+            if len(n) > 3 and n[3] not in (None, "C"):
+                Mx = self.uarr(n[1], n[3])
+                return (Mx @ v) if isinstance(v, ox.VectorVariable) else ox.matmul(Mx, v)
             if isinstance(v, ox.VectorVariable):
                 return self.farr(n[1], "mv") @ v
             # `2-D array @ VectorExpression` is not an operator form of the API; the public function is
@@ -296,6 +325,8 @@ class Builder:
         if k == "dmat":
             return ox.diag_matrix(self.V(n[1]))
         if k == "arr2":
+            if len(n) > 2 and n[2] not in (None, "C"):
+                return self.uarr(n[1], n[2])
             a = np.array(n[1])
             return self.farr(n[1], "arr2") if self.buffers is not None and a.dtype == float else a
         if k == "list2":
